@@ -1,213 +1,28 @@
 import ParryModel.Field
 import ParryModel.C15.Model
-set_option linter.unusedVariables false
-set_option linter.unusedSimpArgs false
+import ParryModel.C15.Theorems4
+
 /-!
-# C20, part 11: termination (fuel adequacy) of the `while` loop of `convex_polygons_intersection`
+# C20 / Theorems11 — termination of `convex_polygons_intersection` (the O'Rourke advance loop)
 
-The model `C15.cvxLoop` runs the code's `while (nsteps1 < len1 || nsteps2 < len2) && nsteps1 < 2 len1 && nsteps2 < 2 len2`
-with a fuel; the code has no iteration cap of its own, so "no hang" is a property to be proved: every iteration that does
-not leave the loop advances `nsteps1` or `nsteps2` by one, and both counters are reset to `0` at most once (when the first
-intersection point is found).  The potential
-
-    μ(st) = (if first_point_found then 0 else 2 len1 + 2 len2) + (2 len1 − nsteps1) + (2 len2 − nsteps2)
-
-strictly decreases, hence any fuel above `μ(st)` gives the same result — in particular the `4 (len1 + len2) + 4` the
-model (and its correspondence harness) uses is never the reason the loop stops.  The proof is over the lawless `Num`
-(no arithmetic law is used: it holds for `Float` with NaN coordinates as well).
+Round fu5 refactored the C15 model of the loop (`cvxStep` + fuel loop) and proved its termination there
+(`C15.cvxLoop_fuel_sufficient`, `C15.cvxLoop_fuel_mono`, potential argument over the lawless `Num`: no arithmetic law is used,
+so the statement also holds for NaN data).  The C20 clause "no hang" for this loop is the corollary below; the former
+stand-alone proof about the pre-refactoring model was removed when the two were merged.
 -/
+
 namespace C20
 open Model Model.C15
 
 variable {K : Type} [Num K]
 
-/-- the potential of a loop state -/
-def cvxMu (len1 len2 : Nat) (st : CvxState K) : Nat :=
-  (if st.firstPointFound then 0 else 2 * len1 + 2 * len2) + (2 * len1 - st.nsteps1) + (2 * len2 - st.nsteps2)
-
-/-- the "edges intersect" block of one iteration (verbatim from `C15.cvxLoop`, its inputs named) -/
-def afterInter (st : CvxState K) (x : Option (SegInter K)) (o1 o2 : TriOrient) (neg : Prop) [Decidable neg]
-    (a1 b1 a2 b2 : Nat) : CvxState K × Bool :=
-  match x with
-  | some (.point loc1 loc2) =>
-    if o1 ≠ .degenerate ∧ o2 ≠ .degenerate then
-      let st := { st with out := st.out.push (some (PolyLoc.ofSegLoc a1 b1 loc1), some (PolyLoc.ofSegLoc a2 b2 loc2)) }
-      let st := if st.inflag = .unknown ∧ st.firstPointFound = false then
-                  { st with nsteps1 := 0, nsteps2 := 0, firstPointFound := true } else st
-      let st := if o1 = .ccw then { st with inflag := .poly1IsInside }
-                else if o2 = .ccw then { st with inflag := .poly2IsInside } else st
-      (st, false)
-    else (st, false)
-  | some (.segment f1 f2 s1 s2) =>
-    if neg then
-      let st := { st with out := (st.out.push (some (PolyLoc.ofSegLoc a1 b1 f1), some (PolyLoc.ofSegLoc a2 b2 f2))).push
-                                    (some (PolyLoc.ofSegLoc a1 b1 s1), some (PolyLoc.ofSegLoc a2 b2 s2)) }
-      (st, true)
-    else (st, false)
-  | none => (st, false)
-
-/-- one iteration of the loop with the recursive call abstracted into the continuation `k` -/
-def cvxBody (len1 len2 : Nat) (x : Option (SegInter K)) (cross o1 o2 : TriOrient) (neg : Prop) [Decidable neg]
-    (a1 b1 a2 b2 : Nat) (k : CvxState K → CvxState K × Bool) (st : CvxState K) : CvxState K × Bool :=
-  if !((decide (st.nsteps1 < len1) || decide (st.nsteps2 < len2)) && decide (st.nsteps1 < 2 * len1)
-        && decide (st.nsteps2 < 2 * len2)) then (st, false) else
-  let r := afterInter st x o1 o2 neg a1 b1 a2 b2
-  if r.2 then r else
-  let st := r.1
-  let adv1 (st : CvxState K) : CvxState K := { st with nsteps1 := st.nsteps1 + 1, i1 := (st.i1 + 1) % len1 }
-  let adv2 (st : CvxState K) : CvxState K := { st with nsteps2 := st.nsteps2 + 1, i2 := (st.i2 + 1) % len2 }
-  let emit1 (st : CvxState K) : CvxState K :=
-    if st.inflag = .poly1IsInside then { st with out := st.out.push (some (.onVertex b1), none) } else st
-  let emit2 (st : CvxState K) : CvxState K :=
-    if st.inflag = .poly2IsInside then { st with out := st.out.push (none, some (.onVertex b2)) } else st
-  if cross = .degenerate ∧ o1 = .cw ∧ o2 = .cw then (st, true)
-  else if cross = .degenerate ∧ o1 = .degenerate ∧ o2 = .degenerate then
-    k (if st.inflag = .poly1IsInside then adv2 st else adv1 st)
-  else if cross = .ccw then
-    if o2 = .ccw then k (adv1 (emit1 st)) else k (adv2 (emit2 st))
-  else
-    if o1 = .ccw then k (adv2 (emit2 st)) else k (adv1 (emit1 st))
-
-/-- `cvxLoop` is `cvxBody` applied to itself with one unit of fuel less (definitional) -/
-theorem cvxLoop_succ (poly1 poly2 : Array (V2 K)) (eps : K) (rev1 rev2 : Bool) (n : Nat) (st : CvxState K) :
-    cvxLoop poly1 poly2 eps rev1 rev2 (n + 1) st =
-      (let len1 := poly1.size
-       let len2 := poly2.size
-       let ab1 := if rev1 then ((len1 - st.i1) % len1, len1 - st.i1 - 1) else ((st.i1 + len1 - 1) % len1, st.i1)
-       let ab2 := if rev2 then ((len2 - st.i2) % len2, len2 - st.i2 - 1) else ((st.i2 + len2 - 1) % len2, st.i2)
-       let dirEdge1 := (ppt poly1 ab1.2).sub (ppt poly1 ab1.1)
-       let dirEdge2 := (ppt poly2 ab2.2).sub (ppt poly2 ab2.1)
-       cvxBody len1 len2
-         (segmentsIntersection2d (ppt poly1 ab1.1) (ppt poly1 ab1.2) (ppt poly2 ab2.1) (ppt poly2 ab2.2) eps)
-         (orientation2d (⟨0, 0⟩ : V2 K) dirEdge1 dirEdge2 eps)
-         (orientation2d (ppt poly2 ab2.1) (ppt poly2 ab2.2) (ppt poly1 ab1.2) eps)
-         (orientation2d (ppt poly1 ab1.1) (ppt poly1 ab1.2) (ppt poly2 ab2.2) eps)
-         (dirEdge1.dot dirEdge2 < 0) ab1.1 ab1.2 ab2.1 ab2.2
-         (cvxLoop poly1 poly2 eps rev1 rev2 n) st) := rfl
-
-/-- the state after the "edges intersect" block: counters unchanged or reset once; the potential does not increase and
-both counters stay below their caps -/
-private theorem afterInter_facts (len1 len2 : Nat) (st : CvxState K) (x : Option (SegInter K)) (o1 o2 : TriOrient) (neg : Prop)
-    [Decidable neg] (a1 b1 a2 b2 : Nat) (h1 : st.nsteps1 < 2 * len1) (h2 : st.nsteps2 < 2 * len2) :
-    let r := afterInter st x o1 o2 neg a1 b1 a2 b2
-    r.1.nsteps1 < 2 * len1 ∧ r.1.nsteps2 < 2 * len2 ∧ cvxMu len1 len2 r.1 ≤ cvxMu len1 len2 st := by
-  unfold afterInter
-  cases x with
-  | none => exact ⟨h1, h2, le_refl _⟩
-  | some y =>
-    cases y with
-    | segment f1 f2 s1 s2 =>
-      dsimp only
-      split_ifs <;> exact ⟨h1, h2, le_refl _⟩
-    | point loc1 loc2 =>
-      dsimp only
-      by_cases hd : o1 ≠ .degenerate ∧ o2 ≠ .degenerate
-      · rw [if_pos hd]
-        by_cases hr : st.inflag = .unknown ∧ st.firstPointFound = false
-        · simp only [hr, and_self, if_true]
-          refine ⟨?_, ?_, ?_⟩
-          · split_ifs <;> simp <;> omega
-          · split_ifs <;> simp <;> omega
-          · split_ifs <;> simp [cvxMu, hr.2] <;> omega
-        · simp only [hr, if_false]
-          refine ⟨?_, ?_, ?_⟩
-          · split_ifs <;> exact h1
-          · split_ifs <;> exact h2
-          · split_ifs <;> exact le_refl _
-      · rw [if_neg hd]; exact ⟨h1, h2, le_refl _⟩
-
-private theorem mu_adv1 (len1 len2 : Nat) (st st0 : CvxState K) (h1 : st.nsteps1 < 2 * len1)
-    (hm : cvxMu len1 len2 st ≤ cvxMu len1 len2 st0) (o : Array (OutPair K)) (i : Nat) :
-    cvxMu len1 len2 ({ st with nsteps1 := st.nsteps1 + 1, i1 := i, out := o } : CvxState K) < cvxMu len1 len2 st0 := by
-  simp only [cvxMu] at hm ⊢
-  split_ifs at hm ⊢ <;> omega
-private theorem mu_adv2 (len1 len2 : Nat) (st st0 : CvxState K) (h2 : st.nsteps2 < 2 * len2)
-    (hm : cvxMu len1 len2 st ≤ cvxMu len1 len2 st0) (o : Array (OutPair K)) (i : Nat) :
-    cvxMu len1 len2 ({ st with nsteps2 := st.nsteps2 + 1, i2 := i, out := o } : CvxState K) < cvxMu len1 len2 st0 := by
-  simp only [cvxMu] at hm ⊢
-  split_ifs at hm ⊢ <;> omega
-
-/-- one iteration either leaves the loop with a result that does not depend on the continuation, or calls the continuation
-on a state of strictly smaller potential -/
-theorem cvxBody_step (len1 len2 : Nat) (x : Option (SegInter K)) (cross o1 o2 : TriOrient) (neg : Prop) [Decidable neg]
-    (a1 b1 a2 b2 : Nat) (st : CvxState K) :
-    (∃ fin, ∀ k, cvxBody len1 len2 x cross o1 o2 neg a1 b1 a2 b2 k st = fin) ∨
-    (∃ st', cvxMu len1 len2 st' < cvxMu len1 len2 st ∧
-        ∀ k, cvxBody len1 len2 x cross o1 o2 neg a1 b1 a2 b2 k st = k st') := by
-  unfold cvxBody
-  by_cases hc : (!((decide (st.nsteps1 < len1) || decide (st.nsteps2 < len2)) && decide (st.nsteps1 < 2 * len1)
-        && decide (st.nsteps2 < 2 * len2))) = true
-  · exact Or.inl ⟨(st, false), fun k => by rw [if_pos hc]⟩
-  · have hn1 : st.nsteps1 < 2 * len1 := by simp at hc; omega
-    have hn2 : st.nsteps2 < 2 * len2 := by simp at hc; omega
-    have F := afterInter_facts len1 len2 st x o1 o2 neg a1 b1 a2 b2 hn1 hn2
-    simp only [if_neg hc]
-    generalize afterInter st x o1 o2 neg a1 b1 a2 b2 = r at F ⊢
-    obtain ⟨st1, ret⟩ := r
-    obtain ⟨f1, f2, fm⟩ := F
-    cases ret with
-    | true => exact Or.inl ⟨(st1, true), fun k => by simp⟩
-    | false =>
-      simp only [Bool.false_eq_true, if_false]
-      by_cases c1 : cross = .degenerate ∧ o1 = .cw ∧ o2 = .cw
-      · exact Or.inl ⟨(st1, true), fun k => by rw [if_pos c1]⟩
-      · simp only [if_neg c1]
-        by_cases c2 : cross = .degenerate ∧ o1 = .degenerate ∧ o2 = .degenerate
-        · simp only [if_pos c2]
-          by_cases c3 : st1.inflag = .poly1IsInside
-          · exact Or.inr ⟨_, mu_adv2 len1 len2 st1 st f2 fm _ _, fun k => by rw [if_pos c3]⟩
-          · exact Or.inr ⟨_, mu_adv1 len1 len2 st1 st f1 fm _ _, fun k => by rw [if_neg c3]⟩
-        · simp only [if_neg c2]
-          by_cases c4 : cross = .ccw
-          · simp only [if_pos c4]
-            by_cases c5 : o2 = .ccw
-            · refine Or.inr ⟨_, ?_, fun k => by rw [if_pos c5]⟩
-              split_ifs <;> exact mu_adv1 len1 len2 st1 st f1 fm _ _
-            · refine Or.inr ⟨_, ?_, fun k => by rw [if_neg c5]⟩
-              split_ifs <;> exact mu_adv2 len1 len2 st1 st f2 fm _ _
-          · simp only [if_neg c4]
-            by_cases c5 : o1 = .ccw
-            · refine Or.inr ⟨_, ?_, fun k => by rw [if_pos c5]⟩
-              split_ifs <;> exact mu_adv2 len1 len2 st1 st f2 fm _ _
-            · refine Or.inr ⟨_, ?_, fun k => by rw [if_neg c5]⟩
-              split_ifs <;> exact mu_adv1 len1 len2 st1 st f1 fm _ _
-
-private theorem cvxBody_congr (len1 len2 : Nat) (x : Option (SegInter K)) (cross o1 o2 : TriOrient) (neg : Prop) [Decidable neg]
-    (a1 b1 a2 b2 : Nat) (st : CvxState K) (k k' : CvxState K → CvxState K × Bool)
-    (h : ∀ st', cvxMu len1 len2 st' < cvxMu len1 len2 st → k st' = k' st') :
-    cvxBody len1 len2 x cross o1 o2 neg a1 b1 a2 b2 k st = cvxBody len1 len2 x cross o1 o2 neg a1 b1 a2 b2 k' st := by
-  rcases cvxBody_step len1 len2 x cross o1 o2 neg a1 b1 a2 b2 st with ⟨fin, hf⟩ | ⟨st', hm, hk⟩
-  · rw [hf, hf]
-  · rw [hk, hk]; exact h st' hm
-
-/-- **C20 (termination of `convex_polygons_intersection`)**: the `while` loop leaves through its own exits, never through
-the fuel — any two amounts of fuel above the potential of the state give the same result.  Holds for every input
-(any polygons, empty ones included, any tolerance, any scalar type: no arithmetic law is used). -/
-theorem cvxLoop_fuel_adequate (poly1 poly2 : Array (V2 K)) (eps : K) (rev1 rev2 : Bool) :
-    ∀ (fuel fuel' : Nat) (st : CvxState K),
-      cvxMu poly1.size poly2.size st < fuel → cvxMu poly1.size poly2.size st < fuel' →
-      cvxLoop poly1 poly2 eps rev1 rev2 fuel st = cvxLoop poly1 poly2 eps rev1 rev2 fuel' st := by
-  intro fuel
-  induction fuel with
-  | zero => intro fuel' st h; omega
-  | succ n ih =>
-    intro fuel' st h h'
-    cases fuel' with
-    | zero => omega
-    | succ n' =>
-      rw [cvxLoop_succ, cvxLoop_succ]
-      dsimp only
-      apply cvxBody_congr
-      intro st' hm
-      exact ih n' st' (by omega) (by omega)
-
-/-- **the cap used by the model is adequate**: from the initial state (`nsteps1 = nsteps2 = 0`) the potential is at most
-`4 (len1 + len2)`, below the fuel `4 (len1 + len2) + 4` of `C15.convexPolygonsIntersection`; more fuel changes nothing. -/
-theorem cvxLoop_cap_adequate (poly1 poly2 : Array (V2 K)) (eps : K) (rev1 rev2 : Bool) (st0 : CvxState K) (extra : Nat) :
-    cvxLoop poly1 poly2 eps rev1 rev2 (4 * (poly1.size + poly2.size) + 4 + extra) st0
-      = cvxLoop poly1 poly2 eps rev1 rev2 (4 * (poly1.size + poly2.size) + 4) st0 := by
-  have hm : cvxMu poly1.size poly2.size st0 ≤ 4 * (poly1.size + poly2.size) := by
-    simp only [cvxMu]; split_ifs <;> omega
-  exact cvxLoop_fuel_adequate poly1 poly2 eps rev1 rev2 _ _ st0 (by omega) (by omega)
+/-- **C20 (termination of `convex_polygons_intersection`)**: from the initial state the `while` loop leaves through its own
+exits after at most `4 (len1 + len2)` iterations — the model's fuel `4 (len1 + len2) + 4`, or any larger amount, is never
+the reason the loop stops.  Every input (empty polygons included), every tolerance, every scalar type. -/
+theorem cvxLoop_cap_adequate (poly1 poly2 : Array (V2 K)) (eps : K) (rev1 rev2 : Bool) (extra : Nat) :
+    cvxLoop poly1 poly2 eps rev1 rev2 (4 * (poly1.size + poly2.size) + 4 + extra) ⟨0, 0, 0, 0, .unknown, false, #[]⟩
+      = cvxLoop poly1 poly2 eps rev1 rev2 (4 * (poly1.size + poly2.size) + 4) ⟨0, 0, 0, 0, .unknown, false, #[]⟩ := by
+  rw [C15.cvxLoop_fuel_sufficient poly1 poly2 eps rev1 rev2 (4 * (poly1.size + poly2.size) + 4 + extra) (by omega),
+      C15.cvxLoop_fuel_sufficient poly1 poly2 eps rev1 rev2 (4 * (poly1.size + poly2.size) + 4) (by omega)]
 
 end C20
